@@ -18,9 +18,26 @@ type TSConfig struct {
 	// call result or phi of function type is known to hold on this path, so that a dispatch
 	// through a returned or selected method value is followed like a static call.
 	E int64
+	// F records one boolean parameter of the function being analysed whose value the caller
+	// fixed (0 = none; otherwise 1 + 2*index + value): `resetOn(verb, clear bool)` called with
+	// a constant, or with a condition the model can evaluate in the caller's configuration, is
+	// analysed with the branch on that parameter resolved.
+	F int64
 }
 
-func (c TSConfig) String() string { return fmt.Sprintf("(%d,%d,%d,%d,%d)", c.A, c.B, c.C, c.D, c.E) }
+func (c TSConfig) String() string {
+	return fmt.Sprintf("(%d,%d,%d,%d,%d,%d)", c.A, c.B, c.C, c.D, c.E, c.F)
+}
+
+// TSEval is an optional extension of a model: the truth of a boolean value in a configuration.
+type TSEval interface {
+	EvalBool(v ssa.Value, c TSConfig) (val, known bool)
+}
+
+func isBoolType(t types.Type) bool {
+	b, ok := t.Underlying().(*types.Basic)
+	return ok && b.Kind() == types.Bool
+}
 
 // tsBind: SSA value val holds function fn (nil: the nil function) on the current path.
 type tsBind struct {
@@ -207,6 +224,27 @@ func (t *TS) Exec(fn *ssa.Function, entry TSConfig) []TSConfig {
 					if g != nil && t.M.Descend(g) {
 						c0 := c
 						c0.E = 0
+						c0.F = 0
+						if args := x.Call.Args; len(args) == len(g.Params) {
+							for i, prm := range g.Params {
+								if !isBoolType(prm.Type()) {
+									continue
+								}
+								bv, known := ConstBool(args[i])
+								if !known {
+									if ev, ok := t.M.(TSEval); ok {
+										bv, known = ev.EvalBool(args[i], c)
+									}
+								}
+								if known {
+									c0.F = 1 + 2*int64(i)
+									if bv {
+										c0.F++
+									}
+									break
+								}
+							}
+						}
 						t.Exec(g, c0)
 						returnsFunc := false
 						if sig := g.Signature; sig.Results().Len() == 1 {
@@ -215,6 +253,7 @@ func (t *TS) Exec(fn *ssa.Function, entry TSConfig) []TSConfig {
 						for _, e := range t.exitsOf[tsKey{g, c0}] {
 							ns := tsState{c: e.c, p: st.p}
 							ns.c.E = c.E
+							ns.c.F = c.F
 							// constant boolean results
 							if e.ret != nil {
 								res := ReturnResults(e.ret)
@@ -243,6 +282,7 @@ func (t *TS) Exec(fn *ssa.Function, entry TSConfig) []TSConfig {
 							// recursion in progress or no exits recorded: fall back to configs
 							for _, ec := range t.memo[tsKey{g, c0}] {
 								ec.E = c.E
+								ec.F = c.F
 								next = append(next, tsState{c: ec, p: st.p})
 							}
 						}
@@ -270,6 +310,13 @@ func (t *TS) Exec(fn *ssa.Function, entry TSConfig) []TSConfig {
 							if st.p.b != pol {
 								continue // the callee returned the other constant
 							}
+						}
+					}
+					// a boolean parameter the caller fixed
+					if nc.F != 0 {
+						pi, bv := int((nc.F-1)/2), (nc.F-1)%2 == 1
+						if v, pol, ok := CondTruth(it.b, k); ok && pi < len(fn.Params) && v == ssa.Value(fn.Params[pi]) && bv != pol {
+							continue
 						}
 					}
 					// a bound function value compared with nil
